@@ -1168,6 +1168,12 @@ func (app *App) disableSemiSyncOnSlaves(becomeInactive, becomeDataLag []string) 
 }
 
 func (app *App) enableSemiSyncOnSlave(host string, slaveState, masterState *nodestate.NodeState) error {
+	if masterState == nil || masterState.MasterState == nil || slaveState == nil || slaveState.SlaveState == nil {
+		// e.g. the recorded master reports a replication source of its own: there are no positions to compare
+		err := fmt.Errorf("no master/replica positions to compare for %s", host)
+		app.logger.Error().Err(err).Msgf("failed to enable semi_sync_slave on %s", host)
+		return err
+	}
 	node := app.cluster.Get(host)
 	err := node.SemiSyncSetSlave()
 	if err != nil {
